@@ -1,10 +1,12 @@
 CONSTANTS
-  Tokens <- MCTokens
+  TokenIds = {"OO", "acetone", "MeOH", "ethane"}
   Atoms = {"C", "O"}
   Objs = {"o1", "o2"}
   Scope = "object"
   MaxCalls = 5
+  TC <- MCTrue
 SPECIFICATION Spec
+CONSTRAINT Bounded
 INVARIANT AnswersAreTrue
 INVARIANT MemoSound
 CHECK_DEADLOCK FALSE
